@@ -10,14 +10,56 @@ VERIF = os.path.dirname(os.path.dirname(os.path.abspath(__file__)))
 TECH = "bounded model checking of the compiled code: Kani 0.68 -> CBMC 6.11 -> SAT (cadical), one-step induction over a symbolic pre-state"
 
 # per property: (level text, level note, design section)
+STEP = ("Decided inductively: the pre-state is an arbitrary terminal satisfying the representation invariant InvT (DESIGN.md 3.1) - every cell, pen, mode, "
+        "saved context, scrollback line symbolic within the instance's geometry - and the solver (CBMC/cadical on the Kani-compiled code of /repo) shows the "
+        "exact one-step post-condition plus InvT for every value; one step over an arbitrary valid state covers histories of any length. ")
+NOTE = ("Bounded: screens up to 5x5 (row-moving operations 3x3 / 3x4 with cursor row and margins enumerated as instances), 0-2 scrollback lines, "
+        "scrollback limit a constant of the instance; width-changing resize (reflow), dump(), text() and the String layer are outside. Trusted: Kani's "
+        "std/allocator model; stubs listed in the evidence (ptr_rotate replaced by an element-wise rotate that is itself checked against its contract).")
 CLAIMS = {
-    "C18": (
-        "For every tab-stop set satisfying the set invariant (strictly increasing, inside the screen) with a bounded number of stops, "
-        "the solver decides Tabs::new / set / unset / clear / expand / contract / after / before against membership formulas for all "
-        "widths <= 40..73, all columns and all u16 counts; HT/CHT/CBT/HTS/CTC/TBC and Terminal::resize glue are decided from an arbitrary "
-        "terminal state.  One inductive step over an arbitrary valid set covers resize/edit histories of any length.",
-        "Bounds: <= 5 stops per set, widths <= 73; Kani's std/allocator model; Buffer::resize replaced by its contract in the resize-glue harness.",
-        "5/C18"),
+    "C01": ("Every Kani built-in check (panic, index / slice range, unwrap, arithmetic overflow, division by zero, pointer validity, unwinding bound) of every "
+            "harness family is discharged: Parser::feed from any parser state with any char, every Function variant executed from an arbitrary valid terminal, "
+            "gc / changes / height-only resize / screen switches, on the degenerate geometries 1x1 and 1xN as well. " + STEP, NOTE, "5/C01"),
+    "C02": (STEP + "InvT (size, view = tail of lines, line widths, lines >= rows, last line unwrapped, cursor range and wrap-pending equivalence, margins, saved positions, "
+            "flags per row) is asserted after every operation family; changes() indices strictly increasing and < rows.", NOTE, "5/C02"),
+    "C03": ("For all 14 states x all 1,112,064 scalar values the next state and kind of action of Parser::feed equal an independently written Williams table (one query); "
+            "the action helpers, csi/esc/execute dispatch for every final / intermediate / parameter value, mode lists, parameter accumulation and saturation, "
+            "memoryless re-entry (ESC, CSI, DCS clear all 32 parameters) and ESC Fe == C1 are decided directly from an arbitrary parser state satisfying InvP.",
+            "Bounds: <= 8 mode parameters per list, cur_param in {0,1,2,5,31}; recorder / contract stubs of avt functions listed in the evidence, each justified by a harness deciding the real function.", "5/C03"),
+    "C04": (STEP + "Print(ch) for every printable scalar value: translated glyph and current pen in exactly one cell, cursor advance / wrap-pending / deferred wrap with "
+            "mark and region scroll, insert-mode shift, auto-wrap-off overwrite, nothing else changes; REP 0/1 == one print; charset table; SO/SI/designations/IRM/DECAWM.", NOTE, "5/C04"),
+    "C05": (STEP + "Closed-form post-conditions for BS, CR, CUU, CUD, CUF, CUB, CNL, CPL, CHA, CUP, VPA, VPR, HT, CHT, CBT, LF/NEL/RI off the margin, DECSTBM, DECOM for all u16 "
+            "parameters, every start position incl. wrap-pending, every margin pair, origin mode on/off; no cell changes.", NOTE, "5/C05"),
+    "C06": (STEP + "LF/NEL/RI on the margin, SU, SD, IL, DL for all counts: rows of the range shift by min(n,height), vacated rows blank in the current pen, every other line "
+            "unchanged, lines() grows exactly for an upward scroll starting at row 0; DECSTBM validity.", NOTE + " Whole-view upward scrolls have the count case-split (0,1,2,3,4,65535).", "5/C06"),
+    "C07": (STEP + "ED 0/1/2, EL 0/1/2, ECH n, ICH n, DCH n, DECALN: exact extent incl. the wrap-pending column, blanks in the current pen, shift and drop-off, "
+            "soft-wrap mark cleared when the tail is erased / characters deleted, cursor and everything else unchanged.", NOTE, "5/C07"),
+    "C08": ("SGR decoding: for any list of 6 parameters with any sub-parameters, a leading well-formed operation (after 0-2 unknown codes) is decoded to exactly the statement's "
+            "operation and consumes exactly its parameters (induction over the list); general lists of <= 2 parameters in full. The pen reaches printed and blanked cells "
+            "(print / erase / scroll / alternate-screen harnesses assert cell.pen == pen).", NOTE + " Pen::dump round trip outside.", "5/C08"),
+    "C10": ("Kernels only: height-only Terminal::resize from an arbitrary state (no line altered, only rows below the cursor dropped, cursor stays on its line, InvT) and the "
+            "height re-synchronisation on return from the alternate screen. The width-changing composition (reflow) is undecided.",
+            "Buffer::resize with a width change is out of CBMC's reach here (DESIGN.md section 0); heights 1..4, cursor rows and scrollback sizes enumerated as instances.", "5/C10"),
+    "C12": ("feed_str = fold of the decided step followed by changes(); gc(): both are shown invisible - view, cursor, modes, saved contexts unchanged; with unlimited "
+            "scrollback lines() unchanged - from an arbitrary state, iterator drained or dropped.", NOTE + " A literal comparison of 2^(n-1) chunkings of a string is outside.", "5/C12"),
+    "C13": (STEP + "gc() for limits 0,1,3,10 and scrollback sizes around the hard limit: lines() <= rows + L + L/10 afterwards, == rows for L = 0 and on the alternate screen; "
+            "every family that adds lines sets the pending-trim flag (InvT.G11).", NOTE, "5/C13"),
+    "C14": (STEP + "gc() hands out exactly the oldest lines beyond the soft limit, unchanged and in order, whether drained or dropped, and nothing on the alternate screen; "
+            "every other family leaves every scrollback line in place (frame witness).", NOTE + " TextCollector Strings outside.", "5/C14"),
+    "C15": (STEP + "From cleared flags, a visible cell that differs after the step implies its row is flagged (witness cell, every family); changes() returns exactly the flags.", NOTE, "5/C15"),
+    "C16": (STEP + "Entering (47/1047/1049) parks the primary line for line and presents blanks in the current pen; every family leaves the parked screen untouched; leaving "
+            "restores it, with a stale height re-synchronised without altering a line; 1049 cursor save / restore.", NOTE, "5/C16"),
+    "C17": (STEP + "DECSC/SCOSC/1048h/1049h store exactly (col, row, pen, origin, auto-wrap); DECRC/SCORC/1048l/1049l restore them; contexts are per screen (swap); "
+            "every other family leaves both untouched; resize clamps the saved position.", NOTE, "5/C17"),
+    "C18": ("For every tab-stop set satisfying the set invariant (strictly increasing, inside the screen) with a bounded number of stops, the solver decides Tabs::new / set / unset / "
+            "clear / expand / contract / after / before against membership formulas for all widths <= 73, all columns and all u16 counts; HT/CHT/CBT/HTS/CTC/TBC and "
+            "Terminal::resize glue are decided from an arbitrary terminal state. One inductive step over an arbitrary valid set covers resize/edit histories of any length.",
+            "Bounds: <= 5 stops per set, widths <= 73; Kani's std/allocator model; Buffer::resize replaced by its contract in the resize-glue harness.", "5/C18"),
+    "C19": (STEP + "execute(Ris) from any state (alternate screen, stale parked height, any modes incl. cursor keys, custom tabs) equals Terminal::new field by field; "
+            "ESC c from any parser state returns Ris and leaves Parser::new().", NOTE + " RIS with unlimited scrollback is outside (Buffer::new reserves 1000 lines).", "5/C19"),
+    "C20": ("From every string state every payload character yields no function and stays in the string; ST / ESC \\ / BEL(OSC) end it in ground; unimplemented CSI finals, "
+            "private markers, intermediates, ESC finals and unassigned C0/C1 dispatch to None - a None step never reaches the terminal.",
+            "Composition with the terminal is by the three-line body of Vt::feed / feed_str (no execute without a function).", "5/C20"),
 }
 
 NOT_APPLICABLE = {
